@@ -113,6 +113,27 @@ ADD6 = {
  'C20': ('dropped-error rule inside unbounded retry loops; sort-callback and boolean-guard idioms proved for the bounds-check census', 'no file-system call inside an unbounded retry loop of the back ends has its error dropped.'),
 }
 
+# Additions after the unseen batch 7 (DESIGN.md §5.7)
+ADD7 = {
+ 'C01': ('cut-set rule for strings.Trim*; reserved-directory rule for the sidecar store; pruning-has-no-other-effect rule', 'no Trim/TrimLeft/TrimRight with a word as cut set strips attribute or key names; every SideCar method addresses <object>/meta; removeParents removes only the empty directory it examined.'),
+ 'C02': ('confirmed-only rule for the IAM cache; never-nil rule for the upload body', 'the account cache is written only after the service confirmed the account and answers only with the service\'s errors; the Body handed to PutObject/UploadPart is never nil on any path.'),
+ 'C03': ('no-removal-before-store rule for the policy attribute', 'PutBucketPolicy overwrites the policy attribute in place, never removes it first.'),
+ 'C04': ('pruning-has-no-other-effect rule; reserved-directory rule for the sidecar store', 'removeParents has no effect other than removing the probed empty directory; SideCar methods never address an object\'s own directory.'),
+ 'C05': ('constructors-remove-nothing rule', 'posix.New / scoutfs.New reach no removal, rename or truncation.'),
+ 'C08': ('every-return form of the ETag suffix rule', 'every way GetMultipartMD5 returns carries the number of parts.'),
+ 'C09': ('constructor rule for version ids; saved-before-marker rule under Enabled versioning', 'version ids come from ulid.Make only; in an Enabled bucket the delete marker is stored only after createObjVersion.'),
+ 'C10': ('pruning-has-no-other-effect rule (shared with C04)', 'a directory object under legal hold is not removed by the clean-up after deleting a key below it.'),
+ 'C11': ('constructors-remove-nothing rule; who-may-call rule for os.CreateTemp', 'a restart removes nothing; temp files are made by the temp-file openers only.'),
+ 'C13': ('streamed-whole rule for the response body; unparsed-offset rule for the range parsers', 'StreamResponseBody never reads the body itself; range offsets are results of strconv.ParseInt(s, 10, 64).'),
+ 'C14': ('no-removal-before-store rule (shared with C03)', 'a policy update never passes through no policy.'),
+ 'C15': ('allowing-return rule extended to verdicts handed back', 'a verdict of another decision (policy, ACL) returned as it is counts as an allowing return and must lie behind the read-only test.'),
+ 'C16': ('role-comparison rule for IsAdmin; bucket-seen rule before directory creation', 'IsAdmin is account.Role == RoleAdmin; every posix method that creates directories below a bucket first stats the bucket.'),
+ 'C17': ('confirmed-only rule for the IAM cache (shared with C02); pointer-receiver rule for lock-holding types', 'no negative caching; no method of a lock-holding type of package auth has a value receiver.'),
+ 'C18': ('status-relay rule for handleError; own-operation-first rule', 'handleError stores only the endpoint\'s status; no other mutating endpoint call precedes the forwarded operation of the method\'s own name.'),
+ 'C19': ('second-decoding clause of the verbatim-key rule; result-field rule for the event version', 'the event key is not decoded twice; an event\'s VersionId taken from a backend result is the result\'s VersionId field.'),
+ 'C20': ('nil-test rule for optional numeric fields in auth', 'every dereference of an optional *int32/*int64 field in package auth lies behind a nil test of that field.'),
+}
+
 ADD = {
  "C01": ("hash-provenance rule (md5.New -> TeeReader -> copy -> Sum order), drain-before-Sum rule for HashReader, store/delete ordering rule, map-rooted-at-backend rule",
          "the stored ETag is hex(Sum()) of an md5 hash that is the TeeReader writer of the copied stream, finalised after the copy; a HashReader's Sum() is taken only after it was copied to its end; in-place metadata replacement deletes before it stores; no per-process maps hang off the backend struct."),
@@ -177,6 +198,9 @@ def main():
             if pid in ADD6:
                 tech = tech + "; added after unseen batch 6: " + ADD6[pid][0]
                 decided = decided + " Added after unseen batch 6 (DESIGN.md 5.6): " + ADD6[pid][1]
+            if pid in ADD7:
+                tech = tech + "; added after unseen batch 7: " + ADD7[pid][0]
+                decided = decided + " Added after unseen batch 7 (DESIGN.md 5.7): " + ADD7[pid][1]
             checks.append({
                 "property_id": pid,
                 "quick_cmd": f"/verif/bin/vgwsa check -prop {pid} -tier quick",
